@@ -135,6 +135,57 @@ pub fn run(rep: &mut Report, thorough: bool) {
                 t[(i / 256) as usize] = i as u8;
                 eth(&MAC_SRV, &MAC_CLI, ET_IP6, &nd_ns(&cli6(), &srv6(), &Ip::V6(t), &slla(&MAC_CLI), 0))
             });
+            // deep stages
+            sweep_frames(rep, cfg, &format!("echo-id-x-seq-{}", tag), "echo identifier 0..65535 x sequence low byte 0..255 x {v4,v6}", 65536 * 256 * 2, |i| {
+                let d = crate::engine::unrank(i, &[2, 65536, 256]);
+                flow(d[0] == 1, 1, 1).icmp_echo(d[1] as u16, 0x1100 | d[2] as u16, b"q")
+            });
+            sweep_frames(rep, cfg, &format!("echo-data-patterns-{}", tag), "echo data length 0..1472 x 4 content patterns (00, ff, counter, echo-reply-like) x {v4,v6}", 1473 * 4 * 2, |i| {
+                let d = crate::engine::unrank(i, &[2, 4, 1473]);
+                let n = d[2] as usize;
+                let data: Vec<u8> = match d[1] {
+                    0 => vec![0; n],
+                    1 => vec![0xff; n],
+                    2 => (0..n).map(|k| k as u8).collect(),
+                    _ => (0..n).map(|k| [0u8, 0, 0xff, 0xff, 8, 0][k % 6]).collect(),
+                };
+                flow(d[0] == 1, 1, 1).icmp_echo(0xabcd, 0x0102, &data)
+            });
+            sweep_frames(rep, cfg, &format!("arp-types-{}", tag), "ARP hardware type 0..65535, protocol type 0..65535, (hlen, plen) 256 x 256", 65536 * 3, |i| {
+                let mut a = Arp::request(MAC_CLI, v4(cli4()), v4(srv4()));
+                match i / 65536 {
+                    0 => a.htype = i as u16,
+                    1 => a.ptype = i as u16,
+                    _ => {
+                        a.hlen = (i >> 8) as u8;
+                        a.plen = i as u8;
+                    }
+                }
+                eth(&[0xff; 6], &MAC_CLI, ET_ARP, &a.bytes())
+            });
+            sweep_frames(rep, cfg, &format!("arp-target-bytes-{}", tag), "ARP target address: all 65536 values of the low half and of the high half", 65536 * 2, |i| {
+                let t = v4(srv4());
+                let w = (i % 65536) as u16;
+                let tpa = if i < 65536 { [t[0], t[1], (w >> 8) as u8, w as u8] } else { [(w >> 8) as u8, w as u8, t[2], t[3]] };
+                eth(&[0xff; 6], &MAC_CLI, ET_ARP, &Arp::request(MAC_CLI, v4(cli4()), tpa).bytes())
+            });
+            sweep_frames(rep, cfg, &format!("ns-options-{}", tag), "ND option: type 0..255 x length octet 0..4 x {alone, before, after a source link-layer address option}", 256 * 5 * 3, |i| {
+                let d = crate::engine::unrank(i, &[256, 5, 3]);
+                let mut o = vec![d[0] as u8, d[1] as u8];
+                o.extend(std::iter::repeat(0x77).take((d[1] as usize * 8).saturating_sub(2).max(6)));
+                let opts = match d[2] {
+                    0 => o,
+                    1 => [o, slla(&MAC_CLI)].concat(),
+                    _ => [slla(&MAC_CLI), o].concat(),
+                };
+                eth(&MAC_SRV, &MAC_CLI, ET_IP6, &nd_ns(&cli6(), &srv6(), &srv6(), &opts, 0))
+            });
+            sweep_frames(rep, cfg, &format!("icmp-type-code-bodies-{}", tag), "ICMPv4 / ICMPv6 type 0..255 x code 0..255 x body length {0, 4, 28}", 65536 * 3 * 2, |i| {
+                let d = crate::engine::unrank(i, &[2, 3, 65536]);
+                let body = vec![0x11u8; [0usize, 4, 28][d[1] as usize]];
+                let (t, c) = ((d[2] >> 8) as u8, d[2] as u8);
+                if d[0] == 0 { flow4(1, 1).ip_frame(P_ICMP, &icmp4(t, c, &body)) } else { flow6(1, 1).ip_frame(P_ICMP6, &icmp6(&cli6(), &srv6(), t, c, &body)) }
+            });
         }
     }
     rep.states = rep.sink.classes.len() as u64;
